@@ -528,6 +528,35 @@ def run(tier, fx=None, ck=None, control=False):
             if not ok:
                 ck.finding("R6.loader-progress", "R6.loader-progress/%s/cycle" % lb, F.short_span(h.span),
                            "`%s` has a cycle through its fixed-point loop that runs no module body: nothing shrinks, loading need not terminate" % lb)
+    # ------------------------------------------------------------ R7
+    ck.rule("R7.body-under-own-path", "a module body runs while current_module_path holds that module's path (run-time re-exports resolve against it)", floor=1)
+    body_runners = {p for p in fx.fns if p.endswith(("Interpreter::execute_program_bytecode", "BytecodeVM::run", "Interpreter::run_bytecode"))}
+    for r in runners:
+        path_params = [i for i in range(1, r.argc + 1) if "ModulePath" in fx.tys(r.locals[i])]
+        writes = []   # (block, is_install)
+        for bi, bl in enumerate(r.blocks):
+            for st in bl["s"]:
+                if st[0] == "a" and st[1][1] and F.place_fields(st[1]) and F.place_fields(st[1])[-1][2] == "current_module_path" and st[2][0] != "ref":
+                    anc = set()
+                    for pl in F.rvalue_places(st[2]):
+                        anc |= ancestors(r, pl[0])
+                    writes.append((bi, bool(anc & set(path_params))))
+        run_sites = [bi for bi, t in r.calls() if t[1].get("d") in body_runners]
+        if not run_sites:
+            continue
+        installs = {b for b, ins in writes if ins}
+        others = {b for b, ins in writes if not ins}
+        for rb in run_sites:
+            ok = any(r.dominates(b, rb) for b in installs)
+            for ob in others:
+                if rb in r.reachable_from(ob, stop=installs) or (ob == rb):
+                    ok = False
+            # a write in the same block as an install but after it
+            ck.instance("R7.body-under-own-path", "%s runs the body under its own path" % r.path, F.short_span(r.blocks[rb]["t"][6]), ok=ok)
+            if not ok:
+                ck.finding("R7.body-under-own-path", "R7.body-under-own-path/%s" % r.path, F.short_span(r.blocks[rb]["t"][6]),
+                           "`%s` runs the module body while `current_module_path` does not (any longer) hold the module's own path: "
+                           "`export { v } from \"./impl.ts\"` in `/app/lib/index.ts` is resolved at run time against the importer's directory" % r.path)
     if not own:
         return None
     ctl = F.load_fixture()
@@ -539,6 +568,27 @@ def run(tier, fx=None, ck=None, control=False):
         ck.closed_fail.append("control failed: the fixture loader must be reported by %s, got %s" % (sorted(need), sorted(got)))
     ck.note("positive control (fixture c09::Interpreter) reported by: %s" % sorted(got))
     return ck.finish()
+
+
+def producer_calls(f, op, depth=0, seen=None):
+    """local-crate callees whose results flow into an operand (through moves, `?`, clones and aggregates)"""
+    seen = seen if seen is not None else set()
+    out = []
+    if op[0] not in ("c", "m") or depth > 10:
+        return out
+    l = op[1][0]
+    if l in seen:
+        return out
+    seen.add(l)
+    for bi, si, rv in f.defs().get(l, []):
+        if si == "T":
+            out.append(rv[1].get("d") or "?")
+            for a in rv[2][:1]:
+                out += producer_calls(f, a, depth + 1, seen)
+        else:
+            for pl in F.rvalue_places(rv):
+                out += producer_calls(f, ["c", pl], depth + 1, seen)
+    return out
 
 
 _smb = {}
@@ -658,6 +708,25 @@ def live_bindings(fx, ck, scope, tops, installers, pre, control):
             made = {s[2][1].get("v") for bi in region for s in f.blocks[bi]["s"]
                     if s[0] == "a" and s[2][0] == "agg" and s[2][1].get("k") == "adt" and s[2][1].get("p", "").endswith("ModuleExport")}
             ok = made == {"ReExport"}
+            # the record pairs the module the specifier names with the key the instruction names; a module obtained by transforming that
+            # lookup (following the chain of barrels to its origin) must come with the key *that* lookup found - both from one call
+            for bi in region:
+                for st in f.blocks[bi]["s"]:
+                    if st[0] == "a" and st[2][0] == "agg" and st[2][1].get("p", "").endswith("ModuleExport") and st[2][1].get("v") == "ReExport":
+                        flds = st[2][1].get("fields") or []
+                        if "source_module" in flds and "source_key" in flds:
+                            mo = st[2][2][flds.index("source_module")]
+                            ko = st[2][2][flds.index("source_key")]
+                            mcalls = producer_calls(f, mo)
+                            kcalls = producer_calls(f, ko)
+                            extra = [c for c in mcalls if not c.endswith(("::resolve_module", "ops::Try>::branch", "cheap_clone", "Clone>::clone"))
+                                     and c.startswith("interpreter::")]
+                            if extra and not (set(extra) & set(kcalls)):
+                                ok = False
+                                ck.finding("R5.live-bindings", "R5.live-bindings/%s/Op::ReExport/module-from-%s" % (p, extra[0].split("::")[-1]), F.short_span(st[3]),
+                                           "the `Op::ReExport` arm takes `source_module` from `%s` but `source_key` from the instruction: when a barrel in the "
+                                           "chain renames the binding (`export { hits as total } from`), the record points at the origin module under the "
+                                           "name the binding has one hop earlier" % extra[0])
             ck.instance("R5.live-bindings", "%s / Op::ReExport records ModuleExport::ReExport" % p, F.short_span(f.span), ok=ok)
             if not ok:
                 ck.finding("R5.live-bindings", "R5.live-bindings/%s/Op::ReExport" % p, F.short_span(f.span),
